@@ -185,6 +185,57 @@ func harnesses(r *fw.Run) []fw.HarnessSpec {
 			c.Fail(key, "parse(print(x)) != x at %s (json %s)", d, trunc(string(doc)))
 			return
 		}
+		// a JSON scalar (string / number) replaces the value it is decoded into - encoding/json merges objects, never
+		// scalars - so for the types whose JSON form is a scalar the result must not depend on what the destination
+		// held before. Earlier occupants: values built with the 2nd / 3rd / last alternative at every choice.
+		if len(doc) > 0 && (doc[0] == '"' || doc[0] == '-' || (doc[0] >= '0' && doc[0] <= '9')) && !g.Lenient {
+			for _, pol := range []int{1, 2, -1} {
+				pol := pol
+				fg := &gen.G{C: enum.NewFixedCtx(func(n int, free bool) int {
+					if pol < 0 || pol >= n {
+						return n - 1
+					}
+					return pol
+				}), Seed: seed + 3, Enums: registry.Enums}
+				var pv reflect.Value
+				okPrev := true
+				func() {
+					defer func() {
+						if recover() != nil {
+							okPrev = false
+						}
+					}()
+					pv = fg.Make(e.Type, "")
+				}()
+				if !okPrev || fg.Lenient {
+					continue
+				}
+				var pdoc []byte
+				func() {
+					defer func() {
+						if recover() != nil {
+							okPrev = false
+						}
+					}()
+					pdoc, err = json.Marshal(pv.Addr().Interface())
+				}()
+				if !okPrev || err != nil || len(pdoc) == 0 || (pdoc[0] != '"' && pdoc[0] != '-' && (pdoc[0] < '0' || pdoc[0] > '9')) {
+					continue
+				}
+				dst := reflect.New(e.Type)
+				if json.Unmarshal(pdoc, dst.Interface()) != nil {
+					continue
+				}
+				if err := json.Unmarshal(doc, dst.Interface()); err != nil {
+					c.Fail("parse-into-used-destination-error:"+e.Name, "own JSON %s parses into a fresh value but not into one that held %s: %v", trunc(string(doc)), trunc(string(pdoc)), err)
+					return
+				}
+				if d := gen.Equal(judged, dst.Elem()); d != "" {
+					c.Fail("parse-into-used-destination:"+e.Name, "the scalar document %s parsed into a value that held %s differs from the value at %s", trunc(string(doc)), trunc(string(pdoc)), d)
+					return
+				}
+			}
+		}
 		c.Outcome("ok")
 		// malformed documents derived from this one
 		if len(doc) <= 200 {
